@@ -19,6 +19,12 @@ fn embed<T: Sx>(rows: bool) {
         // points (w = 1) and directions (w = 0)
         goals_vec("3->4 point", &VL::ent(&($M4::from(m3) * Vec4::from_point(v3(&p3)))), &[r3[0], r3[1], r3[2], k(1)]);
         goals_vec("2->3 point", &VL::ent(&($M3::from(m2) * Vec3::from_point_2d(v2(&p2)))), &[r2[0], r2[1], k(1)]);
+        // growing with supplied scalars: the padding of the matrix is the identity, so the supplied lanes come through
+        let (z, w) = (var::<T>("z"), var::<T>("w"));
+        goals_vec("2->3 supplied z", &VL::ent(&($M3::from(m2) * Vec3::from((v2(&p2), z)))), &[r2[0], r2[1], z]);
+        goals_vec("3->4 supplied w", &VL::ent(&($M4::from(m3) * Vec4::from((v3(&p3), w)))), &[r3[0], r3[1], r3[2], w]);
+        goals_vec("2->4 supplied z, w", &VL::ent(&($M4::from(m2) * Vec4::from((Vec3::from((v2(&p2), z)), w)))), &[r2[0], r2[1], z, w]);
+        goals_vec("2->4 point", &VL::ent(&($M4::from(m2) * Vec4::from_point(Vec3::from(v2(&p2))))), &[r2[0], r2[1], k(0), k(1)]);
     }} }
     if rows { go!(Rows2 Rows3 Rows4) } else { go!(Cols2 Cols3 Cols4) }
 }
